@@ -869,6 +869,22 @@ def run_written_key(chk, spec):
 		key = kt["m"]
 	elif how == "mask-built-nullable":
 		key = Vector(list(pattern) + [None])[0:n]
+	elif how.startswith("index-vector-promoted"):
+		# an index vector that an in-place write turned into floats (its class is still the int vector class): not an index vector any more - refused, vector untouched
+		key = Vector([0, min(2, n - 1)])
+		key[1] = 1.5 if how.endswith("float") else (1 + 0j)
+		before = snapshot(v)
+		for newv in (spec["value"], None, 2.5 if isinstance(vals[0], int) else spec["value"], [spec["value"]] * 2):
+			o = call(v.__setitem__, key, newv)
+			chk.judged("assign-fault", ("written-key", how, n, repr(type(newv).__name__)))
+			after = snapshot(v)
+			if o.ok:
+				chk.fail("an index that is not one is refused", f"assign/accepted-bad-key/written-key/{how}", f"{spec!r}: v[<vector of {list(key._underlying)!r}>] = {newv!r} was accepted: {short(after, 120)}")
+				return
+			if after != before:
+				chk.fail("an assignment that fails for any reason leaves the vector exactly as it was", f"assign/not-atomic/written-key/{how}", f"{spec!r}: value {newv!r}: raised {o!r}; before {short(before, 120)} after {short(after, 120)}")
+				return
+		return
 	else:      # index vector that held a None for a while
 		idxs = [i for i, b in enumerate(pattern) if b] or [0]
 		key = Vector(list(idxs))
@@ -911,6 +927,71 @@ def run_full_slice_then_write(chk, spec):
 		model[slice(*k[1])] = spec["value"]
 	if not M.same_list(list(target._underlying), model) or not M.same_list(list(other._underlying), vals):
 		chk.fail("assignment leaves exactly the contents list assignment would produce", f"assign/contents/full-slice-then-write/{spec['side']}", f"{spec!r}: written {short(list(target._underlying), 100)} (model {short(model, 100)}), the other {short(list(other._underlying), 100)} (was {short(vals, 100)})")
+
+
+def run_object_column_odd_eq(chk, spec):
+	"""an object column takes any value as a list does - also values whose == does not answer with a bool (builds an expression, answers True to everything, raises): only a
+	value that IS None makes the column nullable"""
+	class Expr:
+		def __eq__(self, o): return Expr()
+		def __ne__(self, o): return Expr()
+		def __bool__(self): return True
+		__hash__ = object.__hash__
+	class Raises:
+		def __eq__(self, o): raise RuntimeError("no ==")
+		__hash__ = object.__hash__
+	class NoTruth:
+		def __eq__(self, o): return NoTruth()
+		def __bool__(self): raise TypeError("no truth value")
+		__hash__ = object.__hash__
+	val = {"expr": Expr, "raises": Raises, "no-truth": NoTruth, "eq-all": V.EqAll}[spec["value"]]()
+	base = [1, "a", 2.5]
+	v = Vector(list(base), dtype=object) if spec["typed"] == "explicit" else Vector(list(base))
+	nullable0 = v.schema().nullable
+	key = build_key(spec["key"])
+	newv = val if spec["key"][0] in ("int", "mask-list") else [val]
+	o = call(v.__setitem__, key, newv)
+	chk.judged("assign-fault", ("object-column-odd-eq", spec["value"], spec["key"][0], spec["typed"]))
+	if not o.ok:
+		chk.fail("an object column takes the value as a list does", f"assign/raises/object-column/value-with-odd-eq/{spec['value']}/{type(o.exc).__name__}", f"{spec!r}: {o!r}")
+		return
+	cells = list(v._underlying)
+	if cells[0] is not val or any(x is None for x in cells):
+		chk.fail("assignment leaves exactly the contents list assignment would produce", f"assign/contents/object-column/value-with-odd-eq/{spec['value']}", f"{spec!r}: cells {[type(x).__name__ for x in cells]!r}")
+		return
+	if v.schema().nullable and not nullable0:
+		chk.fail("only None makes a column nullable", f"assign/nullable-without-none/object-column/{spec['value']}", f"{spec!r}: the column is now {v.schema()!r} although no None was written")
+
+
+def run_rejected_then_wider(chk, spec):
+	"""a batch whose first value would promote the column and whose second value is refused changes nothing - ALSO nothing the next write could notice: a later value of that
+	wider kind promotes the column as if the rejected batch had never been tried"""
+	from datetime import date, datetime
+	kind = spec["kind"]
+	vals = {"int": [1, 2, 3], "float": [1.5, 2.5, 3.5], "date": [date(2020, 1, 1), date(2020, 1, 2), date(2020, 1, 3)], "bool": [True, False, True]}[kind]
+	wide1, wide2 = {"int": (2.5, 3.5), "float": (1j, 2 + 1j), "date": (datetime(2020, 1, 1, 5), datetime(2021, 1, 1, 6)), "bool": (7, 9)}[kind]
+	v = Vector(list(vals), name="v")
+	before = snapshot(v)
+	bad = object() if kind != "bool" else "zz"
+	r = call({"slice": lambda: v.__setitem__(slice(0, 2), [wide1, bad]), "idx": lambda: v.__setitem__([2, 0], [wide1, bad]), "mask": lambda: v.__setitem__([True, True, False], [wide1, bad])}[spec["first"]])
+	chk.judged("assign-fault", ("rejected-then-wider", kind, spec["first"], spec["then"]))
+	if r.ok:
+		chk.skip("batch-was-accepted")
+		return
+	if snapshot(v) != before:
+		chk.fail("an assignment that fails for any reason leaves the vector exactly as it was", f"assign/not-atomic/rejected-then-wider/{kind}", f"{spec!r}: {short(before, 100)} -> {short(snapshot(v), 100)}")
+		return
+	twin = Vector(list(vals), name="v")
+	w = {"item": lambda x: x.__setitem__(0, wide2), "slice": lambda x: x.__setitem__(slice(0, 1), [wide2]), "mask": lambda x: x.__setitem__([True, False, False], wide2)}[spec["then"]]
+	a, b = call(w, v), call(w, twin)
+	sa, sb = snapshot(v), snapshot(twin)
+	if a.ok != b.ok or sa[1] != sb[1] or not M.same_list(sa[0], sb[0]):
+		chk.fail("an assignment that fails for any reason leaves the vector exactly as it was", f"assign/not-atomic/rejected-then-wider/{kind}/later-write-differs",
+			f"{spec!r}: after the rejected batch, writing {wide2!r} gives {short(sa, 120)} ({a!r}); on a vector that never saw the batch {short(sb, 120)} ({b!r})")
+		return
+	msg = M.truthful(sa[0], v.schema())
+	if msg:
+		chk.fail("the column dtype covers what was assigned", f"assign/untruthful-after-assign/rejected-then-wider/{kind}", f"{spec!r}: {msg}")
 
 
 def run_selfmask(chk, spec):
@@ -1059,7 +1140,7 @@ def run_mask_reuse(chk, spec):
 			return
 
 
-RUNNERS = {"written_key": run_written_key, "full_slice_then_write": run_full_slice_then_write, "cross_kind_equal": run_cross_kind_equal, "mask_reuse": run_mask_reuse, "own_source": run_own_source, "badmask": run_badmask, "selfmask": run_selfmask, "sequence": run_sequence, "overflow": run_overflow, "assign": run_assign, "iterfault": run_iterfault, "table_assign": run_table_assign, "rename": run_rename, "rename_fault": run_rename_fault, "shared_refusal": run_shared_refusal, "unprintable_value": run_unprintable_value, "table_special_forms": run_table_special_forms, "narrower_subclass": run_narrower_subclass}
+RUNNERS = {"object_column_odd_eq": run_object_column_odd_eq, "rejected_then_wider": run_rejected_then_wider, "written_key": run_written_key, "full_slice_then_write": run_full_slice_then_write, "cross_kind_equal": run_cross_kind_equal, "mask_reuse": run_mask_reuse, "own_source": run_own_source, "badmask": run_badmask, "selfmask": run_selfmask, "sequence": run_sequence, "overflow": run_overflow, "assign": run_assign, "iterfault": run_iterfault, "table_assign": run_table_assign, "rename": run_rename, "rename_fault": run_rename_fault, "shared_refusal": run_shared_refusal, "unprintable_value": run_unprintable_value, "table_special_forms": run_table_special_forms, "narrower_subclass": run_narrower_subclass}
 
 COLKINDS = ["bool", "int", "float", "complex", "str", "date", "datetime", "object", "bytes"]
 
@@ -1240,10 +1321,18 @@ def run(chk):
 		for vals in ([1, 2, 3], ["p", "q"], [1.5, None]):
 			for keyspec, value, vform in ((("int", 0), vals[-1], "scalar"), (("slice", (None, None, None)), list(reversed(vals)), "list"), (("idx-list", [0]), [vals[-1]], "list"), (("mask-list", [True] + [False] * (len(vals) - 1)), vals[-1], "scalar")):
 				chk.case("assign", {"values": vals, "key": keyspec, "vform": vform, "value": value, "duplicate": dup}, "assign-duplicate")
-	for how in ("mask-was-none", "mask-in-table-was-none", "mask-built-nullable", "index-vector-was-none"):
+	for how in ("mask-was-none", "mask-in-table-was-none", "mask-built-nullable", "index-vector-was-none", "index-vector-promoted-float", "index-vector-promoted-complex"):
 		for vals, value in (([10, 20, 30, 40], 99), (["a", "b", "c"], "z"), ([1.5, None, 2.5, 3.5, 4.5], 0.25)):
 			for pattern in ([1, 0, 1, 0, 0], [0, 0, 1, 1, 0], [1, 1, 1, 1, 1], [0, 1, 0, 0, 0], [0, 0, 0, 1, 0]):
 				chk.case("written_key", {"how": how, "values": vals, "value": value, "pattern": pattern}, "assign-written-key")
+	for value in ("expr", "raises", "no-truth", "eq-all"):
+		for keyspec in (("int", 0), ("slice", (0, 1, None)), ("idx-list", [0]), ("mask-list", [True, False, False])):
+			for typed in ("explicit", "inferred"):
+				chk.case("object_column_odd_eq", {"value": value, "key": keyspec, "typed": typed}, "assign-object-odd-eq")
+	for kind in ("int", "float", "date", "bool"):
+		for first in ("slice", "idx", "mask"):
+			for then in ("item", "slice", "mask"):
+				chk.case("rejected_then_wider", {"kind": kind, "first": first, "then": then}, "assign-rejected-then-wider")
 	for sl in ("[:]", "[0:]", "[:n]", "[-n:]", "[::1]", "[-99:99]"):
 		for side in ("slice", "source"):
 			for vals, value in (([1, 2, 3], 9), (["p", "q"], "z"), ([1.5, None], 2.5)):
